@@ -381,12 +381,16 @@ def marshalSigningKeys : Nat → List (Str × Val) → Res (List Json)
 end
 
 def fuel : Nat := 100000
+/-- the decoder gets more fuel than the encoder: object members may arrive in another order than the encoder
+wrote them (the scope objects inside a signing-key set travel through a sorted map), see `slack` in
+`JwtModel/Overlay.lean` and the round-trip theorem in `JwtProofs/CodecRT.lean` -/
+def decFuel : Nat := 200000
 
 /-- decode a JSON document text into a value of type `t`, starting from `base` -/
 def decodeText (t : Ty) (base : Val) (text : Str) : Res Val :=
   match Json.parse text with
   | none => .err
-  | some j => unmarshal env fuel t j base
+  | some j => unmarshal env decFuel t j base
 
 def encodeText (t : Ty) (v : Val) : Res Str := do
   let j ← marshal env fuel t v
